@@ -2,6 +2,7 @@
 
 Optimality (KKT conditions, duality gaps) is a numerical statement about the solver's fixed point and is not decided.
 What is visible in the shape of the code and necessary for it on every dataset is decided here."""
+import re
 from .core import RuleResult
 from .facts import fn_key, fn_loc, fn_file, walk, strip, peel_refs, pat_bindings, Render
 
@@ -418,9 +419,152 @@ def rule_filtered(ctx):
     return res.finish(2)
 
 
+def _ndim(c, n):
+    t = c.ty(n.get("at") if "at" in n else n.get("t")) or c.ty(n.get("t")) or ""
+    m = re.search(r"Dim<\[usize; ?(\d)\]>", t)
+    return int(m.group(1)) if m else None
+
+
+def rule_gap(ctx):
+    """Structural clauses of 'the reported duality gap bounds the suboptimality'.
+
+    (count) the penalties are scaled by the number of *samples*: a float made from `.len()` of a matrix is the number of
+    elements, rows times columns.  (dualnorm) the dual of the l2,1 penalty of the multi-task problem is the largest row
+    2-norm of X^T R: the max-norm taken on the matrix itself is the largest entry, which is smaller as soon as there are two
+    tasks, and the dual point it certifies is not feasible.  (feasible) the residual is rescaled into the dual feasible set
+    whenever its dual norm exceeds l1_reg - also for l1_reg = 0, where the feasible set is {0}; the unscaled branch is
+    reached only when the dual norm is within the bound."""
+    res = RuleResult("R-C11-gap", "duality gaps: sample counts are row counts, the multi-task dual norm is a maximum over row norms, the dual point is rescaled whenever its dual norm exceeds l1_reg")
+    F = ctx.facts()
+    fns = [f for f in F.all_fns() if f["d"]["krate"] == "linfa_elasticnet" and "tests" not in f["d"]["path"] and not f.get("exp") and "algorithm" in fn_file(f)]
+    n_counts = 0
+    for fn in fns:
+        c = fn["crate"]
+        r = Render(c)
+        key = fn_key(fn)
+        for y in walk(fn["body"]):
+            # F::cast(<array>.len()) / <array>.len() as f64
+            arg = None
+            if y.get("k") == "Call" and len(y["args"]) == 1 and (c.dfn(strip(y["f"]).get("def")) or {}).get("name") in ("cast", "from", "from_usize"):
+                arg = y["args"][0]
+            elif y.get("k") == "Cast":
+                arg = y["e"]
+            if arg is None:
+                continue
+            a = peel_refs(arg)
+            if a.get("k") == "MethodCall" and a["name"] in ("len", "nrows", "nsamples", "len_of") and "ArrayBase" in (c.ty(peel_refs(a["recv"]).get("t")) or "") + (c.ty(peel_refs(a["recv"]).get("at")) or ""):
+                n_counts += 1
+                res.instance("%s : count `%s`" % (key, r.e(a)[:40]))
+                nd = _ndim(c, peel_refs(a["recv"]))
+                if a["name"] == "len" and nd is not None and nd >= 2:
+                    res.violate("%s : element-count-as-sample-count" % key, "`%s` is the number of *elements* of a %d-dimensional array (rows times columns), used as a count in the penalty / gap arithmetic: with more than one column every threshold is scaled by the number of columns" % (r.e(a)[:40], nd), fn_loc(fn, a.get("ln")))
+                else:
+                    res.ok()
+    if n_counts < 3:
+        res.missing_anchor("sample counts turned into floats in linfa-elasticnet (found %d)" % n_counts)
+    gaps = [f for f in fns if f["d"]["name"] in ("duality_gap", "duality_gap_mtl") and not f["d"].get("self_adt")]
+    if len(gaps) < 2:
+        res.missing_anchor("duality_gap / duality_gap_mtl")
+    for fn in gaps:
+        c = fn["crate"]
+        r = Render(c)
+        key = fn_key(fn)
+        inits = {}
+        for y in walk(fn["body"]):
+            if y.get("k") == "LetStmt" and y.get("init") is not None and y["pat"].get("k") == "Bind":
+                inits[y["pat"]["local"]] = (y["pat"]["name"], y["init"])
+        # the branch that rescales: its then-block divides l1_reg by the dual norm
+        br = None
+        for y in walk(fn["body"]):
+            if y.get("k") == "If" and y.get("else") is not None and any(z.get("k") == "Binary" and z["op"] == "/" and peel_refs(z["l"]).get("k") == "Path" and peel_refs(z["r"]).get("k") == "Path" for z in walk(y["then"])):
+                br = y
+                break
+        res.instance("%s : rescaling branch" % key)
+        if br is None:
+            res.undecided("%s : rescale-branch" % key, "no `if .. { l1_reg / dual_norm .. } else ..` (fail closed)", fn_loc(fn))
+            continue
+        div = next(z for z in walk(br["then"]) if z.get("k") == "Binary" and z["op"] == "/" and peel_refs(z["l"]).get("k") == "Path" and peel_refs(z["r"]).get("k") == "Path")
+        num, den = peel_refs(div["l"]).get("local"), peel_refs(div["r"]).get("local")
+        cond = strip(br["c"])
+        while cond.get("k") in ("DropTemps", "Paren"):
+            cond = strip(cond["e"])
+        if cond.get("k") == "Binary" and cond["op"] in (">", ">=", "<", "<=") and {peel_refs(cond["l"]).get("local"), peel_refs(cond["r"]).get("local")} == {num, den}:
+            gt = (cond["op"] in (">", ">=") and peel_refs(cond["l"]).get("local") == den) or (cond["op"] in ("<", "<=") and peel_refs(cond["r"]).get("local") == den)
+            if gt:
+                res.ok()
+            else:
+                res.violate("%s : rescale-condition-reversed" % key, "`%s`: the residual is rescaled when its dual norm is *within* the bound and left alone when it exceeds it" % r.e(cond)[:50], fn_loc(fn, br.get("ln")))
+        elif cond.get("k") == "Binary" and cond["op"] == "&&":
+            res.violate("%s : rescale-condition-narrowed" % key, "`%s`: the rescaling into the dual feasible set is skipped although the dual norm exceeds l1_reg (for l1_reg = 0 the feasible set is {0}): the unscaled residual is not dual feasible and the value reported is not an upper bound of the suboptimality" % r.e(cond)[:70], fn_loc(fn, br.get("ln")))
+        else:
+            res.undecided("%s : rescale-condition" % key, "`%s` (fail closed)" % r.e(cond)[:50], fn_loc(fn, br.get("ln")))
+        # the dual norm
+        res.instance("%s : dual norm" % key)
+        if den not in inits:
+            res.undecided("%s : dual-norm" % key, "the dual norm is not a local with an initialiser (fail closed)", fn_loc(fn))
+            continue
+        nm, init = inits[den]
+        nmx = next((z for z in walk(init) if z.get("k") == "MethodCall" and z["name"] in ("norm_max", "norm_l1", "norm_l2", "norm")), None)
+        if nmx is None:
+            res.undecided("%s : dual-norm-form" % key, "`%s` (fail closed)" % r.e(init)[:50], fn_loc(fn))
+            continue
+        nd = _ndim(c, peel_refs(nmx["recv"]))
+        if nmx["name"] != "norm_max":
+            res.violate("%s : dual-norm-kind:%s" % (key, nmx["name"]), "the dual norm is taken with `%s`: the dual of the l1 (l2,1) penalty is a maximum norm" % nmx["name"], fn_loc(fn, nmx.get("ln")))
+        elif nd is not None and nd >= 2:
+            res.violate("%s : dual-norm-over-entries" % key, "`%s` is the largest absolute *entry* of a matrix; the dual norm of the multi-task penalty is the largest row 2-norm, which is larger as soon as there are two tasks: the certified dual point is not feasible and the reported gap is too small" % r.e(nmx)[:50], fn_loc(fn, nmx.get("ln")))
+        elif nd == 1:
+            res.ok()
+        else:
+            res.undecided("%s : dual-norm-rank" % key, "rank of `%s` unknown (fail closed)" % r.e(nmx["recv"])[:40], fn_loc(fn, nmx.get("ln")))
+    return res.finish(6)
+
+
+def rule_blocksoft(ctx):
+    """The block soft-threshold is x * (1 - t / ||x||) outside the ball of radius t and zero inside *and on* it.  The
+    threshold is l1_ratio * penalty * n, zero for ridge and for penalty 0 (both in the documented range), and ||x|| is zero
+    for a feature orthogonal to every residual column: with a strict test the point ||x|| = t = 0 takes the division,
+    0 / 0, and every coefficient becomes NaN."""
+    res = RuleResult("R-C11-blocksoft", "block_soft_thresholding returns zero for ||x|| <= threshold (the boundary included, so that 0 / 0 is never formed)")
+    F = ctx.facts()
+    fns = [f for f in F.all_fns() if f["d"]["krate"] == "linfa_elasticnet" and f["d"]["name"] == "block_soft_thresholding"]
+    if not fns:
+        res.missing_anchor("block_soft_thresholding")
+    for fn in fns:
+        c = fn["crate"]
+        r = Render(c)
+        key = fn_key(fn)
+        res.instance(key)
+        div = next((y for y in walk(fn["body"]) if y.get("k") == "Binary" and y["op"] == "/" and peel_refs(y["r"]).get("k") == "Path" and "local" in peel_refs(y["r"])), None)
+        if div is None:
+            res.undecided("%s : division" % key, "no `threshold / norm` (fail closed)", fn_loc(fn))
+            continue
+        den = peel_refs(div["r"])["local"]
+        num = peel_refs(div["l"]).get("local")
+        guard = None
+        for y in walk(fn["body"]):
+            if y.get("k") == "If" and (y.get("ln") or 0) <= (div.get("ln") or 0) and any(z.get("k") == "Ret" for z in walk(y["then"])):
+                cond = strip(y["c"])
+                while cond.get("k") in ("DropTemps", "Paren"):
+                    cond = strip(cond["e"])
+                if cond.get("k") == "Binary" and {peel_refs(cond["l"]).get("local"), peel_refs(cond["r"]).get("local")} == {den, num}:
+                    guard = cond
+        if guard is None:
+            res.violate("%s : division-unguarded" % key, "`%s` is formed without an early return for norm <= threshold" % r.e(div)[:40], fn_loc(fn, div.get("ln")))
+            continue
+        op = guard["op"] if peel_refs(guard["l"]).get("local") == den else {"<": ">", "<=": ">=", ">": "<", ">=": "<=", "==": "==", "!=": "!="}[guard["op"]]
+        if op == "<=":
+            res.ok()
+        elif op == "<":
+            res.violate("%s : boundary-takes-the-division" % key, "`%s` leaves norm == threshold to the division: for threshold 0 (ridge, penalty 0) and a feature orthogonal to the residuals this is 0 / 0, and the NaN spreads to every coefficient" % r.e(guard)[:40], fn_loc(fn, guard.get("ln")))
+        else:
+            res.violate("%s : guard-reversed" % key, "`%s` does not return zero inside the ball" % r.e(guard)[:40], fn_loc(fn, guard.get("ln")))
+    return res.finish(1)
+
+
 def rules(tier):
     from . import carry, precision, layout, c04, zeroskip, axisrole
-    return [zeroskip.make_rule("R-C11-zeroskip", lambda f: f["d"]["krate"] == "linfa_elasticnet" and f["d"]["name"] in ("coordinate_descent", "block_coordinate_descent"), ("r",), 4, "the residual in the coordinate descents"),
+    return [rule_gap, zeroskip.make_rule("R-C11-zeroskip", lambda f: f["d"]["krate"] == "linfa_elasticnet" and f["d"]["name"] in ("coordinate_descent", "block_coordinate_descent"), ("r",), 4, "the residual in the coordinate descents"),
             zeroskip.make_exact_rule("R-C11-scale", lambda f: f["d"]["krate"] == "linfa_elasticnet" and f["d"]["name"] in ("coordinate_descent", "block_coordinate_descent"), ("r",), 6, "the residual"),
             rule_sweep, axisrole.make_rule("R-C11-axes", "linfa_elasticnet", {"duality_gap_mtl": {"x": ("samples", "features"), "y": ("samples", "tasks"), "w": ("features", "tasks"), "r": ("samples", "tasks")},
                                                                                "duality_gap": {"x": ("samples", "features"), "y": ("samples",), "w": ("features",), "r": ("samples",)}}, 2, "the duality gaps of linfa-elasticnet"),
